@@ -6,6 +6,7 @@ import (
 	"net"
 	"net/netip"
 	"strings"
+	"time"
 
 	"github.com/irai/packet"
 	"github.com/irai/packet/handlers/dns_naming"
@@ -21,6 +22,7 @@ type mItem struct {
 	data []byte // A/AAAA address, TXT rdata, PTR/SRV target name (presentation), raw otherwise
 }
 type mStep struct {
+	now      int // seconds on the virtual clock
 	id       int
 	response bool
 	comp     int
@@ -30,6 +32,9 @@ type mStep struct {
 func parseMStep(s string) mStep {
 	f := strings.Split(s, ",")
 	st := mStep{id: atoi(f[0]), response: f[1] == "R", comp: atoi(f[2])}
+	if len(f) > 4 {
+		st.now = atoi(f[4])
+	}
 	for _, it := range strings.Split(f[3], "/") {
 		if it == "-" {
 			continue
@@ -123,8 +128,13 @@ func rawMDNS(a []string) string {
 	h := dns_naming.VerifNew(s)
 	mac := net.HardwareAddr(lib.UnHex(a[0]))
 	var out []string
+	clock := 0
 	for _, ss := range strings.Split(a[1], ";") {
 		st := parseMStep(ss)
+		if st.now > clock { // the cache reads time.Now(): age its entries instead of waiting
+			h.VerifAgeMDNSCache(time.Duration(st.now-clock) * time.Second)
+			clock = st.now
+		}
 		msg := st.wire()
 		f := lib.MkEther(mdnsDstMAC, mac, 0x0800, lib.MkIP4(netip.MustParseAddr("192.168.0.50"), netip.MustParseAddr("224.0.0.251"), 17, 255, lib.MkUDP(5353, 5353, msg)))
 		frame, err := s.Parse(f)
@@ -236,7 +246,9 @@ func genMDNS(r *lib.Run, rng *lib.Rand) {
 	for i := 0; i < N; i++ {
 		mac := []byte{0x02, 0x11, 0x22, 0x33, 0x44, byte(rng.Intn(2))}
 		var steps []string
-		for s := 0; s < 1+rng.Intn(3); s++ {
+		now := 1000
+		for s := 0; s < 1+rng.Intn(4); s++ {
+			now += rng.Pick(0, 0, 1, 150, 299, 300, 301, 600)
 			id := rng.Pick(0, 1, 2)
 			comp := rng.Intn(3)
 			var items []string
@@ -247,7 +259,7 @@ func genMDNS(r *lib.Run, rng *lib.Rand) {
 				if len(items) == 0 {
 					items = []string{"-"}
 				}
-				steps = append(steps, fmt.Sprintf("%d,Q,%d,%s", id, comp, strings.Join(items, "/")))
+				steps = append(steps, fmt.Sprintf("%d,Q,%d,%s,%d", id, comp, strings.Join(items, "/"), now))
 				continue
 			}
 			if rng.Chance(20) {
@@ -276,7 +288,7 @@ func genMDNS(r *lib.Run, rng *lib.Rand) {
 			if len(items) == 0 {
 				items = []string{"-"}
 			}
-			steps = append(steps, fmt.Sprintf("%d,R,%d,%s", id, comp, strings.Join(items, "/")))
+			steps = append(steps, fmt.Sprintf("%d,R,%d,%s,%d", id, comp, strings.Join(items, "/"), now))
 		}
 		r.Do("mdns", lib.Hex(mac), strings.Join(steps, ";"))
 	}
